@@ -476,46 +476,101 @@ func (e *Engine) summariseLoop(st *State, fr *frame, b *ssa.BasicBlock, ifi *ssa
 	if iv.PreInc {
 		first = initV.Add(stepV)
 	}
-	// interpret one generic iteration
+	// interpret one generic iteration; when the body consumes stream bytes the
+	// interpretation is repeated with the stream positioned at
+	// start + (k − first)·consumption so that byte provenance is that of
+	// iteration k, not of the first iteration
 	e.nextCell++
 	k := e.A.Var(fmt.Sprintf("iter#%d", e.nextCell), iv.Phi.Type())
-	stB := st.clone()
-	frB := fr.clone()
-	if iv.PreInc {
-		frB.env[iv.Phi] = k.Sub(stepV)
-		frB.env[iv.Next] = k
-	} else {
-		frB.env[iv.Phi] = k
-	}
-	frB.stopAt = b
-	frB.forks[b] = 0
 	before := map[*Stream]*Form{}
-	for s, p := range stB.pos {
+	for s, p := range st.pos {
 		before[s] = p
 	}
 	memBefore := map[*Cell]string{}
-	for c, v := range stB.mem {
+	for c, v := range st.mem {
 		memBefore[c] = valKey(v)
 	}
-	nEv := len(stB.events)
-	outs := e.exec(stB, frB, b.Succs[0], b, 0, depth)
+	nEv := len(st.events)
 	var back *Outcome
 	var exits []Outcome
-	for i := range outs {
-		switch outs[i].Kind {
-		case "loopback":
-			if back != nil {
-				return fail("the loop body reaches the back edge on more than one path")
-			}
-			back = &outs[i]
-		case "return", "panic":
-			exits = append(exits, outs[i])
-		default:
-			return fail("the loop body is not extractable: " + outs[i].Why)
+	runBody := func(startPos map[*Stream]*Form) ([]Outcome, bool) {
+		stB := st.clone()
+		for s, p := range startPos {
+			stB.pos[s] = p
 		}
+		frB := fr.clone()
+		if iv.PreInc {
+			frB.env[iv.Phi] = k.Sub(stepV)
+			frB.env[iv.Next] = k
+		} else {
+			frB.env[iv.Phi] = k
+		}
+		frB.stopAt = b
+		frB.forks[b] = 0
+		outs := e.exec(stB, frB, b.Succs[0], b, 0, depth)
+		back, exits = nil, nil
+		for i := range outs {
+			switch outs[i].Kind {
+			case "loopback":
+				if back != nil {
+					return fail("the loop body reaches the back edge on more than one path")
+				}
+				back = &outs[i]
+			case "return", "panic":
+				exits = append(exits, outs[i])
+			default:
+				return fail("the loop body is not extractable: " + outs[i].Why)
+			}
+		}
+		if back == nil {
+			return fail("the loop body never reaches the back edge")
+		}
+		return nil, true
 	}
-	if back == nil {
-		return fail("the loop body never reaches the back edge")
+	if _, ok := runBody(nil); !ok {
+		return nil, false
+	}
+	// per-iteration consumption
+	shifted := map[*Stream]*Form{}
+	for s, p := range back.St.pos {
+		b0, ok := before[s]
+		if !ok {
+			b0 = formInt(0)
+		}
+		d := p.Sub(b0)
+		if c, isC := d.ConstInt(); isC && c == 0 {
+			continue
+		}
+		if !unitStep {
+			return fail("the loop consumes stream bytes but does not count in steps of 1")
+		}
+		for a := range d.Atoms() {
+			if a == func() string { n, _ := k.SingleAtom(); return n }() {
+				return fail("the number of bytes consumed per iteration depends on the iteration")
+			}
+		}
+		shifted[s] = b0.Add(k.Sub(first).Mul(d))
+	}
+	if len(shifted) > 0 {
+		if _, ok := runBody(shifted); !ok {
+			return nil, false
+		}
+		// the shifted run must consume the same amount
+		for s, start := range shifted {
+			d1 := back.St.pos[s].Sub(start)
+			d0 := start.Sub(before[s]) // = (k-first)*d
+			_ = d0
+			b0 := before[s]
+			if b0 == nil {
+				b0 = formInt(0)
+			}
+			// consumption per iteration d = (shifted start − b0)/(k − first); compare via cross-multiplication
+			if !d1.Mul(k.Sub(first)).Equal(start.Sub(b0)) {
+				return fail("the number of bytes consumed per iteration depends on the position")
+			}
+			// normalise back.St.pos to "b0 + d" so that the generic code below sees the per-iteration delta
+			back.St.pos[s] = b0.Add(d1)
+		}
 	}
 	// the iteration may only advance stream positions by constants
 	for c, kBefore := range memBefore {
@@ -550,16 +605,17 @@ func (e *Engine) summariseLoop(st *State, fr *frame, b *ssa.BasicBlock, ifi *ssa
 		if !ok {
 			b0 = formInt(0)
 		}
-		d, ok := p.Sub(b0).ConstInt()
-		if !ok || d < 0 {
-			return nil, false
+		d := p.Sub(b0)
+		if c, isC := d.ConstInt(); isC && c == 0 {
+			continue
 		}
-		if d != 0 {
-			if !unitStep {
-				return nil, false
-			}
-			st.pos[s] = b0.Add(trips.Mul(formInt(d)))
+		if c, isC := d.ConstInt(); isC && c < 0 {
+			return fail("the loop body moves the stream backwards")
 		}
+		if !unitStep {
+			return fail("the loop consumes stream bytes but does not count in steps of 1")
+		}
+		st.pos[s] = b0.Add(trips.Mul(d))
 	}
 	st.addEvent(Event{Kind: "loop-summary", Fn: "loop", Args: []Val{first, limit, stepV, k}, Pos: e.condPos(ifi)})
 	st.events = append(st.events, loopStores...)
